@@ -3,6 +3,7 @@
 package c06
 
 import (
+	"encoding/binary"
 	"fmt"
 	"go/ast"
 	"go/parser"
@@ -228,9 +229,49 @@ var addrProp = vp.Register(vp.Prop[Case]{
 	Kind: "c06.addr", Base: 20000,
 	Gen: func(t *rapid.T) Case {
 		nets := allNets()
-		switch rapid.IntRange(0, 13).Draw(t, "src") {
+		switch rapid.IntRange(0, 16).Draw(t, "src") {
 		case 0:
 			return Case{Addr: gen.Addr().Draw(t, "any")}
+		case 14, 15, 16:
+			// Arithmetic neighbours: the leading 32- or 64-bit word of a
+			// listed base moved by a small amount, and the following 32-bit
+			// words tied to each other by an arithmetic relation (sum 2^32,
+			// equal, complement, off by one).  Membership decided by offset
+			// arithmetic instead of prefix comparison goes wrong on addresses
+			// where a borrow or carry crosses a word boundary.
+			n := rapid.SampledFrom(nets).Draw(t, "net")
+			b := n.Addr().As16()
+			delta := uint64(int64(rapid.SampledFrom([]int{-1, -1, 1, -2, 2, 0}).Draw(t, "delta")))
+			at := 4
+			if rapid.Bool().Draw(t, "wide") {
+				binary.BigEndian.PutUint64(b[:8], binary.BigEndian.Uint64(b[:8])+delta)
+				at = 8
+			} else {
+				binary.BigEndian.PutUint32(b[:4], binary.BigEndian.Uint32(b[:4])+uint32(delta))
+				at = rapid.SampledFrom([]int{4, 8}).Draw(t, "at")
+			}
+			a := rapid.OneOf(rapid.Uint32(), rapid.Uint32Range(0, 3), rapid.Just(uint32(1)<<16), rapid.Just(uint32(1)<<31)).Draw(t, "a")
+			var w1, w2 uint32
+			switch rapid.IntRange(0, 5).Draw(t, "rel") {
+			case 0:
+				w1, w2 = -a, a
+			case 1:
+				w1, w2 = a, -a
+			case 2:
+				w1, w2 = a, a
+			case 3:
+				w1, w2 = a, ^a
+			case 4:
+				w1, w2 = ^a, a
+			default:
+				w1, w2 = a, a+1
+			}
+			binary.BigEndian.PutUint32(b[at:], w1)
+			binary.BigEndian.PutUint32(b[at+4:], w2)
+			if at == 4 && rapid.Bool().Draw(t, "tail") {
+				binary.BigEndian.PutUint32(b[12:], rapid.Uint32().Draw(t, "w3"))
+			}
+			return Case{Addr: netip.AddrFrom16(b)}
 		case 12, 13:
 			// A listed base transcribed wrongly: shifted by a nibble or a
 			// byte, bytes swapped inside a hextet, hextets swapped (the slips
